@@ -171,10 +171,14 @@ structure Agg where
   cells : Cells
   /-- `ga.fields`: every field name that ever came in (with or without an aggregator) -/
   seen : List FName
+  /-- `aggregates[tags][field].aggregates[0] != nil`: the merge series aggregator of the field has
+  received at least one segment (with or without points) -/
+  touched : Tag → FName → Bool
 
 /-- `NewGroupingAggregator` -/
 def Agg.new (specs : List Spec) (cap : Nat) : Agg :=
-  { specs := specs, cap := cap, keys := [], cells := fun _ _ _ _ => none, seen := [] }
+  { specs := specs, cap := cap, keys := [], cells := fun _ _ _ _ => none, seen := [],
+    touched := fun _ _ => false }
 
 /-- the series aggregator found by the name loop in `groupingAggregator.Aggregate`
 (first spec with that field name), as its kinds; `none` = `sAgg == nil` -/
@@ -205,7 +209,10 @@ def Agg.aggregateTS (v : Variant) (a : Agg) (ts : TS) : Agg :=
   { a with
     keys := insertNew a.keys ts.tags,
     seen := ts.fields.foldl (fun s fd => insertNew s fd.name) a.seen,
-    cells := ts.atoms.foldl (addAtom v a.specs a.cap) a.cells }
+    cells := ts.atoms.foldl (addAtom v a.specs a.cap) a.cells,
+    touched := fun t f => a.touched t f ||
+      (t == ts.tags && (kindsOf a.specs f).isSome &&
+        ts.fields.any (fun fd => fd.name == f && !fd.prims.isEmpty)) }
 
 /-- the loop over `tsList.TimeSeriesList` in `handleResponse`
 (`if len(ts.Fields) == 0 { continue }`) -/
@@ -220,19 +227,16 @@ def addSpec (acc : List Spec) (sp : Spec) : List Spec :=
 def Agg.addSpecs (a : Agg) (more : List Spec) : Agg :=
   { a with specs := more.foldl addSpec a.specs }
 
-def Agg.hasData (a : Agg) (t : Tag) (sp : Spec) : Bool :=
-  sp.kinds.any (fun k => (List.range a.cap).any (fun s => (a.cells t sp.name k s).isSome))
-
 def Agg.points (a : Agg) (t : Tag) (f : FName) (k : Kind) (cap : Nat) : List (Nat × Int) :=
   (List.range cap).filterMap (fun s => (a.cells t f k s).map (fun v => (s, v)))
 
 /-- what one group looks like on the wire (`makeTimeSeriesList` / `makeTaskResponse`): every
-spec'd field, with one primitive series per kind once the field has received a value -/
+spec'd field, with one primitive series per kind once the field has received a segment -/
 def Agg.emitTS (a : Agg) (t : Tag) : TS :=
   { tags := t,
     fields := a.specs.map (fun sp =>
       { name := sp.name, ftype := sp.ftype,
-        prims := if a.hasData t sp then
+        prims := if a.touched t sp.name then
                    sp.kinds.map (fun k => { kind := k.code, pts := a.points t sp.name k a.cap })
                  else [] }) }
 
@@ -329,7 +333,7 @@ def Agg.evalItem (a : Agg) (pc : Nat) (t : Tag) (it : SelItem) : Option (List (N
   | none => none
   | some sp =>
     let wanted := if it.fn = 0 then defaultKinds sp.ftype else funcKinds sp.ftype it.fn
-    if a.hasData t sp then
+    if a.touched t sp.name then
       match wanted.filter (fun k => sp.kinds.contains k) with
       | [] => none
       | k :: _ => some ((a.points t sp.name k a.cap).filter (fun sv => sv.1 < pc))
